@@ -149,6 +149,9 @@ func checkC09(w *World, r *Report) {
 	r.Rule("R09.11", "argument validation is stateless: in every *Arg.Parse method that validates at all, no success return is reachable without passing a validation call — the verdict never comes from state an earlier call left in the (interned, shared) argument object", 10)
 	r.guard("R09.11", func() { c09StatelessParse(w, r) })
 
+	r.Rule("R09.12", "revision dates strictly descending: checkRevisionOrder compares every revision date with the date of the revision statement before it (the remembered date is updated on every revision iteration and only there)", 1)
+	r.guard("R09.12", func() { c09RevisionChain(w, r) })
+
 	r.Rule("R09.4", "argument parsers use no stdlib recogniser whose language strictly contains the ABNF production (ParseBool, base-0 integers, Atoi on signed text, unicode.IsLetter/IsDigit, Unicode-whitespace splitters such as strings.Fields/TrimSpace)", 1)
 	r.guard("R09.4", func() { c09ArgLanguage(w, r) })
 
@@ -999,5 +1002,74 @@ func c09StatelessParse(w *World, r *Report) {
 	}
 	if n < 10 {
 		panic(undecided{"fewer validating Parse methods than expected"})
+	}
+}
+
+// c09RevisionChain (R09.12): revision dates are strictly descending means each
+// revision is compared with its predecessor. In checkRevisionOrder the value
+// the current date is compared with is a loop-carried variable that, at the
+// end of every iteration which parsed a revision date, holds that date; on
+// other iterations it is carried over unchanged.
+func c09RevisionChain(w *World, r *Report) {
+	f := w.SSAFunc(w.Func("parse", "checkRevisionOrder"))
+	if f == nil {
+		panic(undecided{"parse.checkRevisionOrder"})
+	}
+	loops := ssaLoops(f)
+	checked := false
+	for _, l := range loops {
+		body := l.body()
+		// the parsed date of this iteration
+		var parsed ssa.Value
+		var parseBlock *ssa.BasicBlock
+		for b := range body {
+			for _, in := range b.Instrs {
+				if ex, ok := in.(*ssa.Extract); ok && ex.Index == 0 {
+					if c, ok := ex.Tuple.(*ssa.Call); ok && c.Call.StaticCallee() != nil && c.Call.StaticCallee().String() == "time.Parse" {
+						parsed, parseBlock = ex, b
+					}
+				}
+			}
+		}
+		if parsed == nil {
+			continue
+		}
+		// the loop-carried variable it is compared with
+		for _, in := range l.Header.Instrs {
+			phi, ok := in.(*ssa.Phi)
+			if !ok || phi.Type().String() != "time.Time" {
+				continue
+			}
+			compared := false
+			for _, ref := range *phi.Referrers() {
+				switch x := ref.(type) {
+				case *ssa.Call:
+					if x.Call.StaticCallee() != nil && (x.Call.StaticCallee().Name() == "After" || x.Call.StaticCallee().Name() == "Before" || x.Call.StaticCallee().Name() == "Equal") {
+						compared = true
+					}
+				case *ssa.BinOp:
+					compared = true
+				}
+			}
+			if !compared {
+				continue
+			}
+			checked = true
+			ok2, why := true, ""
+			for _, lt := range l.Latches {
+				v := phiEdge(phi, lt)
+				if parseBlock.Dominates(lt) {
+					if v != parsed {
+						ok2, why = false, "after an iteration that parsed a revision date the remembered date is `"+v.String()+"`, not that date"
+					}
+				} else if v != ssa.Value(phi) {
+					ok2, why = false, "an iteration without a revision statement changes the remembered date"
+				}
+			}
+			r.Check(ok2, "R09.12", "checkRevisionOrder compares each revision with its predecessor", phi.Pos(), "remembered date = the date just parsed, on every revision iteration", why+": order violations and duplicates among later revisions are accepted (e.g. 2020-06-01 / 2018-01-15 / 2019-03-01)")
+		}
+	}
+	if !checked {
+		panic(undecided{"checkRevisionOrder: loop-carried revision date not found"})
 	}
 }
